@@ -70,6 +70,8 @@ Step(e) ==
       [] e.ev = "stop" -> UNCHANGED <<tape, ob, armed, junk, autoStopped, cursor, bad>>
       [] e.ev = "rewind" -> Fresh /\ autoStopped' = FALSE /\ cursor' = 1 /\ UNCHANGED <<tape, bad>>
       [] e.ev = "edge" -> Edge(e)
+      \* the player gave up (an error from process_clocks / rewind, or no end) on a well-formed tape
+      [] e.ev = "taperr" -> Report("taperr", [detail |-> e.detail]) /\ UNCHANGED <<tape, ob, armed, junk, autoStopped, cursor>>
       [] e.ev = "idle" -> /\ IF e.changed THEN Report("frozen", [clocks |-> e.clocks]) ELSE bad' = bad
                           /\ UNCHANGED <<tape, ob, armed, junk, autoStopped, cursor>>
       [] e.ev = "autostop" ->
